@@ -160,6 +160,7 @@ class Run:
             held, seen = [], {}
 
             divert = bool((variant >> 6) & 1) and hops >= 2
+            misname = bool((variant >> 7) & 1) and hops >= 2 and not divert
             thief = ("6.6.6.6", 6000)
 
             def hook(fl):
@@ -173,7 +174,23 @@ class Run:
                     return []
                 if cell is None or not cell["plaintext"] or "done" in seen:
                     return None
-                if divert and cell["message"][:1] == b"\x03":
+                if misname and cell["message"][:1] == b"\x02" and fl.origin is not origin.raw_endpoint and \
+                        "cid" in seen and fl.src == seen["hop"] and "misnamed" not in seen:
+                    # the first hop R asks the next hop to join; that create is lost. A third party that read it (plaintext:
+                    # identifier) answers R with a made-up created that NAMES ANOTHER tunnel R takes part in
+                    rnode = w.by_addr.get(fl.src)
+                    others = [(c2, e) for c2 in self.circuits if not c2["dead"] for e in c2["entries"]
+                              if e[0] is rnode and e[1] in ("exit", "circuit")]
+                    if rnode is not None and others:
+                        seen["misnamed"] = 1
+                        z = others[variant % len(others)][1][2]
+                        msg = b"\x03" + cell["message"][1:3] + struct.pack(">H", 32) + os.urandom(32) + os.urandom(32) + \
+                            os.urandom(30)
+                        forged = w.prefix + b"\x00" + struct.pack(">I", z) + b"\x01\x00" + msg
+                        w.net.inject(thief if variant % 2 else fl.dst, fl.src, forged, note="created naming another tunnel")
+                        return []
+                    return None
+                if (divert or misname) and cell["message"][:1] == b"\x03":
                     return None
                 if cell["message"][:1] == b"\x02" and fl.origin is origin.raw_endpoint and "cid" not in seen:
                     seen["cid"], seen["ident"], seen["hop"] = cell["circuit_id"], cell["message"][1:3], fl.dst
@@ -188,7 +205,7 @@ class Run:
                 random.seed(op[3] * 1009 + i * 7919 + 1)
                 circuit = origin.overlay.create_circuit(hops)
                 await w.net.settle()
-                if divert and circuit is not None:
+                if (divert or misname) and circuit is not None:
                     try:
                         await asyncio.wait_for(asyncio.shield(circuit.ready), 40.0)
                     except asyncio.TimeoutError:
@@ -199,7 +216,7 @@ class Run:
                         self.fail("J1", "extend_resent", f"a third party handed the relay a copy of the originator's extend "
                                                          f"cell from its own address {thief}; the relay then sent "
                                                          f"{len(stolen)} cell(s) of that circuit to the third party")
-                    if circuit.state != "READY":
+                    if circuit.state != "READY" and divert:
                         self.fail("J2", "extend_resent", f"the circuit did not get built (state {circuit.state})")
                     key = b""
                 elif circuit is None or "cid" not in seen or not held:
@@ -223,6 +240,17 @@ class Run:
                         pass
             finally:
                 w.net.on_send = None
+            if misname and circuit.state != "READY":
+                # (the create that was lost may have cost the circuit its last candidate: nothing is claimed about it;
+                # what matters is that the made-up answer did nothing to the tunnels it named)
+                if before_other != self.digest_without({}):
+                    self.fail("J2", "created_misnamed:collateral", "a made-up created cell naming another tunnel changed "
+                                                                   "entries of other circuits")
+                for c2 in [x for x in self.circuits if not x["dead"]]:
+                    await self.send_and_check(c2, 9000 + c2["n"])
+                self.nontrivial = True
+                self.executed.append(("open_under_fire", hops, "misname:unbuilt"))
+                return
             if circuit.state != "READY" or circuit.circuit_id not in origin.overlay.circuits:
                 self.fail("J2", "forged_created", f"a made-up created cell ({len(key)}-byte key, from "
                                                   f"{'the first hop address' if (variant >> 2) & 1 else 'elsewhere'}) for a "
@@ -238,7 +266,11 @@ class Run:
                 self.fail("J4", "build", "path of a ready circuit does not end in an exit entry")
             self.circuits.append(rec)
             self.nontrivial = True
-            self.executed.append(("open_under_fire", hops, "divert" if divert else variant % 5))
+            self.executed.append(("open_under_fire", hops, "divert" if divert else "misname" if misname else variant % 5))
+            if misname:
+                # whatever the made-up answer did shows when the other circuits are used
+                for c2 in [x for x in self.circuits if not x["dead"]][:-1]:
+                    await self.send_and_check(c2, 9000 + c2["n"])
         elif kind == "send":
             if not live:
                 return
@@ -766,7 +798,7 @@ def _grid_cases() -> list:
                 ops += [["forged_cell", 0, e, v] for v in range(64)]
                 out.append({"nodes": 5, "stack": stack, "ops": ops})
     for hops in (1, 2, 3):
-        for variant in [*range(10), 64, 65]:
+        for variant in [*range(10), 64, 65, 128, 129, 130, 131]:
             out.append({"nodes": 5, "stack": None, "ops": [["open", 1, 1, 3], ["open_under_fire", 2, hops - 1, 5, variant],
                                                             ["send", 0, 1], ["send", 1, 2]]})
     return out
